@@ -239,6 +239,13 @@ func (p *vkPeer) handle(m wire.Message) {
 	}
 }
 
+// vkHeadersOnly configures a start block that is never seen: headers are recorded, no bodies.
+func vkHeadersOnly(ctx context.Context, k *vkNode) {
+	var never bitcoin.Hash32
+	never[0] = 0x99
+	vkSetStart(ctx, k, never)
+}
+
 // vkSetStart re-configures the start block the way load() would have seen it:
 // the configured start hash is not in the store yet, so the start height is
 // unknown and the handlers are rebuilt with the new configuration.
